@@ -22,7 +22,7 @@ SPEC = {
                      'random_strings': 'until the time budget'},
     },
     'floor': {'quick': 100000, 'thorough': 1000000},
-    'required_counters': ['calls', 'regexes_compiled', 'malformed_semantics_checked'],
+    'required_counters': ['calls', 'regexes_compiled', 'malformed_semantics_checked', 'bracket_sweep_strings'],
     'budget': {'quick': 50, 'thorough': 600},
     'shard_timeout': {'quick': 400, 'thorough': 1800},
     'assumptions': [
@@ -241,6 +241,27 @@ def malformed_semantics(ctx):
     ctx.mark_nontrivial('malformed-semantics')
 
 
+ALPHA_C = '[]-\\ac!'
+
+
+def bracket_sweep(ctx, maxlen):
+    """Everything that can stand inside brackets: `[` + every string over `[ ] - \\ a c !` (light: translate + compile only)."""
+    idx = 0
+    for n in range(1, maxlen + 1):
+        for tup in itertools.product(ALPHA_C, repeat=n):
+            idx += 1
+            if not ctx.mine(idx):
+                continue
+            text = '[' + ''.join(tup)
+            for fnames, fl_f, fl_g in (((), 0, 0), (('EXTMATCH', 'IGNORECASE'), F.EXTMATCH | F.IGNORECASE, G.EXTGLOB | G.IGNORECASE)):
+                for pat in (text, text.encode('ascii')):
+                    check_regexes(ctx, 'fnmatch.translate', pat, fnames, call(ctx, 'fnmatch.translate', pat, fnames, F.translate, pat, flags=fl_f))
+                    check_regexes(ctx, 'glob.translate', pat, fnames, call(ctx, 'glob.translate', pat, fnames, G.translate, pat, flags=fl_g))
+                    call(ctx, 'fnmatch.fnmatch', pat, fnames, F.fnmatch, pat[:0] + (b'a' if isinstance(pat, bytes) else 'a'), pat, flags=fl_f)
+            ctx.mark_nontrivial(('bracket', text))
+    ctx.count('bracket_sweep_strings', idx)
+
+
 def strings(alpha, n):
     for tup in itertools.product(alpha, repeat=n):
         yield ''.join(tup)
@@ -270,6 +291,7 @@ def run(ctx):
             malformed_semantics(ctx)
         else:
             ctx.count('malformed_semantics_checked', 0)
+        bracket_sweep(ctx, 5 if quick else 6)
         idx = 0
         plan = [(ALPHA_A, 4 if quick else 5, 100), (ALPHA_B, 3 if quick else 4, 100)]
         if not quick:
